@@ -1,7 +1,7 @@
 # Data for MANIFEST.json (edit here, then run lib/mkmanifest.py).
 HOOK_COMMITS = ["50b8633", "a5b2280", "2f4e342", "1984692"]
 # properties whose check is registered (their MANIFEST dict is taken from checks/cXX.py unless given in CHECKS below)
-READY = ["C01", "C02", "C03", "C04", "C05", "C06", "C07", "C09", "C11", "C12", "C13", "C14", "C15", "C16", "C17", "C18", "C19"]
+READY = ["C01", "C02", "C03", "C04", "C05", "C06", "C07", "C09", "C10", "C11", "C12", "C13", "C14", "C15", "C16", "C17", "C18", "C19", "C20"]
 NOTES = ("Deciding technique for every claimed property: machine-checked proof in Coq 8.16.1 about an executable model, "
          "tied to /repo's working tree on every run by a checked correspondence (see DESIGN.md §2-§3). "
          "known_findings.json lists open findings and fix: commits.")
